@@ -366,7 +366,14 @@ def run(ctx, pid, ngames, maxplies=24):
              ('8/8/8/4k3/8/8/4K3/7R b - - 10 399', ['e5e6', 'h1h5', 'e6e7', 'h5h1', 'e7e6']),
              # a promotion that captures a rook on its home square takes the castling right with it
              ('r3k2r/1P4P1/8/8/8/8/8/4K3 w kq - 0 1', ['b7a8q', 'e8e7', 'g7h8n']),
-             ('4k3/8/8/8/8/8/1p4p1/R3K2R b KQ - 0 1', ['g2h1r', 'e1e2', 'b2a1b'])]
+             ('4k3/8/8/8/8/8/1p4p1/R3K2R b KQ - 0 1', ['g2h1r', 'e1e2', 'b2a1b']),
+             # a move text that looks like castling (e1g1, e1c1, e8g8, e8c8) made later in the list by a rook or queen, the king having
+             # left its home square earlier in the same list: each token means what it means in the position reached so far
+             ('rnbqkbnr/pppppppp/8/8/8/8/PPPPPPPP/RNBQKBNR w KQkq - 0 1',
+              ['e2e4', 'e7e5', 'g1f3', 'b8c6', 'f1c4', 'f8c5', 'e1g1', 'g8f6', 'f1e1', 'e8g8', 'g1h1', 'f8e8', 'e1g1', 'g8h8', 'd2d3', 'e8g8']),
+             ('r3k2r/pppq1ppp/2npbn2/2b1p3/2B1P3/2NPBN2/PPPQ1PPP/R3K2R w KQkq - 0 1',
+              ['e1c1', 'e8c8', 'c1b1', 'c8b8', 'd2e1', 'd7e8', 'e1g1', 'e8g8', 'd1e1', 'd8e8', 'e1c1', 'e8c8']),
+             ('4k3/8/8/8/8/8/8/R3K2Q w Q - 0 1', ['e1d2', 'e8d7', 'h1e1', 'd7d6', 'e1g1', 'd6d5', 'a1e1', 'd5d6', 'e1c1'])]
     jobs = [(f, m, random.Random(rng.randrange(1 << 30))) for f, m in fixed + games]
     nrep = 0
     seen = 0
